@@ -16,9 +16,11 @@ helpers are replaced by the helper's body,
 The transformation is purely syntactic and only done where it is obviously semantics
 preserving (Python evaluates the call's arguments, then runs the body):
 
-* the callee is a plain function / coroutine of the same module (no generator, property,
+* the callee is a plain function / coroutine of the package (no generator, property,
   overload, decorator other than staticmethod/classmethod), is not recursive, and was
-  selected by the rule's policy (default: its name is private);
+  selected by the rule's policy (default: its name is private); a callee from another module
+  is only inlined if every global name it mentions resolves to the same object from the
+  caller's module;
 * the call is the first thing the statement evaluates, it is awaited iff the callee is a
   coroutine, it passes no ``*``/``**`` arguments and every parameter can be bound;
 * no name capture is possible (callee locals are renamed apart, callee globals are not
@@ -187,7 +189,7 @@ class Inliner:
         if len(cands) != 1:
             return None, None
         t, recv = cands[0]
-        if t is None or t.module is not self.caller.module or t.is_overload() or t.is_property():
+        if t is None or t.is_overload() or t.is_property():
             return None, None
         if t.kind != ("coroutine" if awaited else "sync"):
             return None, None
@@ -226,6 +228,14 @@ class Inliner:
         free = {x.id for x in ast.walk(fn) if isinstance(x, ast.Name)} - t_locals
         if free & self.caller_locals:
             return None
+        if target.module is not self.caller.module:
+            # a helper of another module: every global it mentions must denote the same
+            # object when looked up from the caller's module
+            for name in free:
+                r1 = self.pkg.resolve_global(target.module, name)
+                r2 = self.pkg.resolve_global(self.caller.module, name)
+                if r1.kind in ("unknown", "value", "instance") or (r1.kind, r1.qual) != (r2.kind, r2.qual):
+                    return None
         # class-private names only within the same class
         if target.cls is not self.caller.cls:
             for x in ast.walk(fn):
